@@ -652,12 +652,18 @@ func (ep *episode) monitors(run *hx.Run, calls []call, obs []*callObs, pre, post
 				rec := trigRec{fmt.Sprintf("%v/%x", shareList, root0[:4])}
 				if prev := ep.trig[mk]; len(prev) > 0 {
 					// which partial did this call store for the validator, and with which root?
+					// (for two racing calls: by either of them — which one ran first is not observable)
 					otherRoot := false
-					for _, e := range c.entries {
-						if e.pk == id && e.sub >= 0 && c.duty().Type != core.DutySignature {
-							r, err := ep.parSig(c, e).MessageRoot()
-							hx.Must(err)
-							otherRoot = r != root0
+					for _, c2 := range calls {
+						if c2.duty() != c.duty() || c.duty().Type == core.DutySignature {
+							continue
+						}
+						for _, e := range c2.entries {
+							if e.pk == id && e.sub == int(sub) {
+								r, err := ep.parSig(c2, e).MessageRoot()
+								hx.Must(err)
+								otherRoot = otherRoot || r != root0
+							}
 						}
 					}
 					same := false
@@ -958,7 +964,14 @@ func (g *gen) episode() {
 			if rng.Chance(1, 25) {
 				st = 'X'
 			}
-			g.duts = append(g.duts, dutyInfo{base + uint64(rng.Intn(3)), regularTypes[rng.Intn(len(regularTypes))], st})
+			du := dutyInfo{base + uint64(rng.Intn(3)), regularTypes[rng.Intn(len(regularTypes))], st}
+			dupl := false
+			for _, x := range g.duts {
+				dupl = dupl || (x.slot == du.slot && x.typ == du.typ)
+			}
+			if !dupl {
+				g.duts = append(g.duts, du)
+			}
 		}
 		if rng.Chance(1, 4) {
 			g.duts = append(g.duts, dutyInfo{base, []int{4, 6}[rng.Intn(2)], 'E'})
@@ -1077,7 +1090,10 @@ func main() {
 			d.execLine(op)
 		}
 	} else {
-		g := &gen{d: d, rng: hx.NewRng(a.Seed)}
+		// hx.Rng streams of nearby seeds are shifts of one another; spread the seeds first
+		z := (a.Seed + 0x632BE59BD9B4E019) * 0xFF51AFD7ED558CCD
+		z ^= z >> 33
+		g := &gen{d: d, rng: hx.NewRng(z)}
 		for run.NOps < a.N {
 			g.episode()
 		}
